@@ -486,6 +486,10 @@ func (e *Engine) verifyLemma(lm *Lemma) *FuncReport {
 		}
 	} else {
 		v := consts[lm.Induction]
+		if fc, ok := consts[lm.From]; ok {
+			lm = &Lemma{Name: lm.Name, Params: lm.Params, Requires: lm.Requires, Ensures: lm.Ensures, Induction: lm.Induction,
+				From: fc.T, Generalize: lm.Generalize, Attach: lm.Attach, Props: lm.Props, Pattern: lm.Pattern, Uses: lm.Uses, File: lm.File, Order: lm.Order, Splits: lm.Splits}
+		}
 		// base
 		base := map[string]Sc{}
 		for k, s := range consts {
